@@ -13,7 +13,7 @@ ROOTS = (T + "timezone::TimeZone::from_tz_data", T + "timezone::TimeZone::from_p
 def run(chk, tier):
     P = Prog("default")
     chk.configs.add("default")
-    for r in (r_absint, r_block_order, r_header_order, r_header_counts, r_tz_string_consumed, r_hms_weights, r_rule_boxes, r_validate, r_validate_cover, r_record_layout, r_offset_sign, r_data_indices, r_ltt_box, r_footer, r_capacity, r_header_consts):
+    for r in (r_absint, r_block_order, r_header_order, r_header_counts, r_tz_string_consumed, r_hms_weights, r_rule_boxes, r_validate, r_validate_cover, r_validate_leaps, r_record_layout, r_offset_sign, r_data_indices, r_ltt_box, r_footer, r_capacity, r_header_consts):
         chk.guarded(r, P, tier)
     chk.assume("that every conforming file is accepted and decoded to exactly the written transitions/types/rule is not decided (value-level)")
     return {
@@ -687,3 +687,27 @@ def r_hms_weights(chk, P, tier):
         forms = {repr(lin(t)) for t in oks}
         want = ({first: 3600, first + 1: 60, first + 2: 1}, 0)
         chk.expect(forms == {repr(want)}, fn, "%s returns %s over the scanned tuple's fields (expected {hour: 3600, minute: 60, second: 1} = %s)" % (fn, sorted(forms), want), loc=P.loc(f))
+
+
+def r_validate_leaps(chk, P, tier):
+    """A zone is accepted only after its leap-second table was checked: in validate() the counting loop over self.leap_seconds (and the first-record test before it) lies on
+    every way to an Ok return - no early Ok before it (e.g. for zones without transitions)"""
+    from rules import counted_loops
+    chk.rule("DOM.validate_leaps", "in validate() the head of the counting loop over leap_seconds dominates every block that returns Ok", floor=2)
+    fn = T + "timezone::TimeZoneRef::<'a>::validate"
+    mir = P.fn(fn)["mir"]
+    cfg = P.cfg(fn)
+    zr = [f["name"] for f in P.adts[T + "timezone::TimeZoneRef"]["variants"][0]["fields"]]
+    f_ls = zr.index("leap_seconds")
+    loops = [l for l in counted_loops(P, fn) if l["slice"] == (1, (f_ls,))]
+    chk.expect(len(loops) == 1 and loops[0]["ok"], "counting loop over leap_seconds", "no loop of the shape `c = 0; while c < self.leap_seconds.len() { ..; c += 1 }` found in validate()", loc=P.loc(fn))
+    if len(loops) != 1:
+        return
+    head = loops[0]["head"]
+    oks = [b for b, blk in enumerate(mir["blocks"]) if not blk.get("cleanup") and any(
+        st["k"] == "assign" and st["pl"]["l"] == 0 and not st["pl"]["p"] and st["rv"]["k"] == "agg" and st["rv"].get("variant") == "Ok" for st in blk["s"])]
+    if not oks:
+        raise AnchorLost("validate(): no Ok return found")
+    early = [b for b in oks if not cfg.dominates(head, b)]
+    chk.expect(not early, "every Ok after the leap-second loop", "validate() returns Ok in %d of %d places that are not behind the leap-second checks (line %s)" % (
+        len(early), len(oks), [mir["blocks"][b]["s"][-1].get("ln") for b in early][:3]), loc=P.loc(fn))
